@@ -108,6 +108,11 @@ pub enum Op {
     NMapKeys,
     NMapUpdate(String),
     NMapForCount,
+    /// `(|(first, ...)| first)(smap)`: the map handed to a function that unpacks its argument
+    /// by position (entries read one at a time)
+    NMapUnpackArg,
+    /// `match smap` / `(a, b) then 2` / `(first, ...) then 1` / `else 0`
+    NMapMatch,
     /// an operation whose callback (or iterable argument) reads the container the operation is
     /// working on: see `REENTRANT`
     NReentrant(u8),
@@ -150,6 +155,8 @@ impl Op {
                 | Op::NMapKeys
                 | Op::NMapUpdate(_)
                 | Op::NMapForCount
+                | Op::NMapUnpackArg
+                | Op::NMapMatch
                 | Op::NReentrant(_)
                 // a match is several instructions (size check, then element / slice reads):
                 // not one container operation, checked for panic / deadlock only
@@ -230,6 +237,8 @@ impl Op {
             NMapKeys => "smap.keys().to_tuple()".into(),
             NMapUpdate(k) => format!("smap.update '{k}', 0, |v| v + 1"),
             NMapForCount => "c = 0\nfor k, v in smap\n  c += 1\nc".into(),
+            NMapUnpackArg => "(|(first, ...)| first)(smap)".into(),
+            NMapMatch => "match smap\n  (a, b) then 2\n  (first, ...) then 1\n  else 0".into(),
             NReentrant(i) => REENTRANT[*i as usize].1.into(),
         }
     }
@@ -537,9 +546,11 @@ fn gen_op(r: &mut Rng, thread: usize, n: &mut i64, target_list: bool, allow_n: b
             ])
             .clone()
         } else {
-            match r.below(3) {
+            match r.below(5) {
                 0 => Op::NMapKeys,
                 1 => Op::NMapUpdate(key(r)),
+                2 => Op::NMapUnpackArg,
+                3 => Op::NMapMatch,
                 _ => Op::NMapForCount,
             }
         };
@@ -1023,10 +1034,39 @@ pub const SOLO_SCRIPTS: &[(&str, &str)] = &[
     ("list-display-element-clears", "l = []\no =\n  @display: ||\n    l.clear()\n    'o'\nl.push o\nl.push o\n'{l}'\n"),
     ("index-assign-value-from-callback", "l = [1, 2]\nl[0] = (|| size l)()\n'{l}'\n"),
     ("map-get-default-reads", "m = {a: 1}\nm.get('zz', size m)\n"),
+    // an OBJECT of the core library entered again while it is mutably borrowed: the inner
+    // access must fail (both memory strategies), not wait
+    ("peekable-reentrant", "holder = {}\ngen = ||\n  yield 1\n  yield holder.p.peek()\n  yield 3\nholder.p = gen().peekable()\nresult = []\ntry\n  for x in holder.p\n    result.push x\n  result.push 'finished'\ncatch error\n  result.push 'caught'\n'{result}'\n"),
+    ("peekable-reentrant-next", "holder = {}\ngen = ||\n  yield 1\n  yield holder.p.next()\nholder.p = gen().peekable()\nr = try\n  holder.p.to_list()\ncatch e\n  'caught'\n'{r}'\n"),
 ];
 
 /// Runs one solo script on a fresh instance under the solo guard
 pub fn run_solo(script: &str) -> Result<String, String> {
+    // The script runs on a thread of its own, so that an operation that WAITS (a `try_` borrow
+    // that cannot be granted must fail; the lock hook cannot see whether it does) is noticed:
+    // the only use of real time in this engine, as a hang detector with a generous bound for a
+    // script that takes microseconds. A thread that hangs is left behind.
+    let (tx, rx) = std::sync::mpsc::channel();
+    let owned = script.to_string();
+    let spawned = std::thread::Builder::new().name("solo".into()).spawn(move || {
+        let _ = tx.send(run_solo_here(&owned));
+    });
+    if spawned.is_err() {
+        return run_solo_here(script);
+    }
+    match rx.recv_timeout(std::time::Duration::from_secs(SOLO_HANG_SECS)) {
+        Ok(r) => r,
+        Err(_) => Err(format!(
+            "panic in sequential run of `{}`: {}: the only running thread did not return within {SOLO_HANG_SECS} s of real time (it waits for a lock it holds itself)",
+            script.trim_end(),
+            crate::sched::SELF_DEADLOCK
+        )),
+    }
+}
+
+pub const SOLO_HANG_SECS: u64 = 60;
+
+fn run_solo_here(script: &str) -> Result<String, String> {
     let mut host = Host::new(HostSettings::default());
     let r = catch_unwind(AssertUnwindSafe(|| {
         crate::sched::solo(|| host.koto.compile_and_run(script).map_err(|e| e.to_string()))
@@ -1264,6 +1304,8 @@ fn parse_op(s: &str) -> Option<Op> {
         "NMapKeys" => NMapKeys,
         "NMapUpdate" => NMapUpdate(st(0)?),
         "NMapForCount" => NMapForCount,
+        "NMapUnpackArg" => NMapUnpackArg,
+        "NMapMatch" => NMapMatch,
         "NReentrant" => NReentrant(us(0)? as u8),
         _ => return None,
     })
